@@ -334,7 +334,7 @@ def rule_expansion(ctx, F):
     except dtree.NotLoopFree:
         paths_ = None
     if paths_ is None:
-        sites = [(bi, t, pr, None) for bi, t in it.calls() if bi in it.cfg.reachable and t["callee"].get("name") == "flat_map"]
+        sites = [(bi, t, pr, None) for bi, t in it.calls() if bi in it.cfg.reachable and t["callee"].get("name") in ("flat_map", "flatten")]
     else:
         for p_ in paths_:
             if p_.end != "return":
@@ -342,7 +342,7 @@ def rule_expansion(ctx, F):
             pp_ = None
             for bi in p_.blocks:
                 t = it.blocks[bi]["term"]
-                if t["k"] == "call" and t["callee"].get("name") == "flat_map":
+                if t["k"] == "call" and t["callee"].get("name") in ("flat_map", "flatten"):
                     pp_ = pp_ or dtree.PathProv(it, p_)
                     vs_ = {}
                     for (b_, t_, lab_, ty_, others_) in p_.conds:
@@ -381,8 +381,23 @@ def rule_expansion(ctx, F):
         if not (oc[0] == "field" and P.strip(oc[1]) == ("param", 1) and oc[2] < len(clo[2])):
             return None
         return spec(clo[2][oc[2]])
+    def following_map_weight(pr_x, t_x, b_x):
+        """spec of w when the only use of this call's result is `.map(|cp| (cp, w))`, else None"""
+        me = pr_x.call_term(t_x, b_x)
+        for b2, t2 in it.calls():
+            if b2 in it.cfg.reachable and t2["callee"].get("name") == "map" and len(t2["args"]) == 2 and \
+                    P.strip(pr_x.operand(t2["args"][0]), calls=False) == me:
+                mc = P.strip(pr_x.operand(t2["args"][1]), calls=False)
+                if mc[0] == "agg" and mc[1].startswith("closure:") and mc[1][len("closure:"):] in F.fns:
+                    mt = P.Prov(F.fns[mc[1][len("closure:"):]]).local(0)
+                    if mt[0] == "agg" and mt[1] == "tuple" and len(mt[2]) == 2 and P.strip(mt[2][0]) == ("param", 2):
+                        w_ = P.strip(mt[2][1])
+                        if w_[0] == "field" and P.strip(w_[1]) == ("param", 1) and w_[2] < len(mc[2]):
+                            return spec(mc[2][w_[2]])
+        return None
     for bi, t, pr_s, vs_ in sites:
         pr_site = pr_s
+        is_flatten = t["callee"].get("name") == "flatten"
         src = P.strip(pr_site.operand(t["args"][0]), calls=False)
         # the expansion through a list of rank pairs: each arm collects `RankRange::ctor(a, b).into_iter().map(pair_of)` into a
         # Vec<RankPair> (one pair for a single-rank-pair token), one shared tail turns every listed pair into its weighted combos
@@ -398,7 +413,7 @@ def rule_expansion(ctx, F):
                     cs_ = (ctor_t[1].rsplit("::", 1)[-1], ["item"], None)
                 else:
                     cs_ = closure_spec(F, ctor_t, spec, vs_)
-                w_ = tail_weight(pr_site.operand(t["args"][1]))
+                w_ = following_map_weight(pr_site, t, bi) if is_flatten else tail_weight(pr_site.operand(t["args"][1]))
                 if cs_ is None or (cs_[2] is not None and cs_[2] != ("follows",)) or w_ is None:
                     raise Unrecognised(rule, "rank pairs listed by something else than RankRange::ctor(a, b).map(|r| RankPair::V(.., r)), or the tail "
                                        "is not |rp| rp.into_iter().map(|cp| (cp, weight))", it.path, it.blocks[bi]["line"])
@@ -415,7 +430,7 @@ def rule_expansion(ctx, F):
                     if s_["k"] == "assign" and "agg" in s_["rv"] and isinstance(s_["rv"]["agg"], dict) and "array" in s_["rv"]["agg"] \
                             and s_["rv"]["agg"]["array"].startswith(tokmodel.RANK_PAIR) and len(s_["rv"]["ops"]) == 1:
                         one_.append(spec(pr_site.operand(s_["rv"]["ops"][0])))
-            w_ = tail_weight(pr_site.operand(t["args"][1]))
+            w_ = following_map_weight(pr_site, t, bi) if is_flatten else tail_weight(pr_site.operand(t["args"][1]))
             if one_ == ["<SingleRankPair>.0"] or (len(set(one_)) == 1 and one_[0] == "<SingleRankPair>.0"):
                 list_singles += 1 if ("single", bi) not in seen_ else 0
                 if ("single", bi) not in seen_:
@@ -429,6 +444,8 @@ def rule_expansion(ctx, F):
         # RankRange::<ctor>(a, b).into_iter()
         if src[0] == "call" and src[1].endswith("IntoIterator>::into_iter") and src[2]:
             src = P.strip(src[2][0], calls=False)
+        if is_flatten:
+            raise Unrecognised(rule, "flatten() over something else than a list of rank pairs", it.path, it.blocks[bi]["line"])
         if not (src[0] == "call" and src[1].startswith("card::rank_range::RankRange::")):
             raise Unrecognised(rule, f"flat_map over something else than a RankRange: {P.show(src)[:80]}", it.path, it.blocks[bi]["line"])
         ctor = src[1].rsplit("::", 1)[-1]
